@@ -1,5 +1,5 @@
 (* C16 — proofs about Model/Converter.v *)
-From PG Require Import Lib.Strs Model.Converter.
+From PG Require Import Lib.Strs Model.Converter Proofs.Reach.
 From Coq Require Import Lia.
 
 (* ---------- generic helpers ---------- *)
@@ -152,8 +152,13 @@ Section RoundTrip.
   (* assumed of the codecs: decoding an encoded byte string gives it back *)
   Hypothesis H_b64 : forall b, b64dec (b64enc b) = Some b.
   Hypothesis H_ct : ct_ok ct.
-  Hypothesis H_sreg : all_hooked ct sreg.
-  Hypothesis H_ureg : all_hooked ct ureg.
+  (* the classes whose hooks are registered: any set closed under "a field of c mentions d" *)
+  Variable R : N -> Prop.
+  Hypothesis H_R : forall c k f d, R c -> lookup_cls ct c = Some k -> In f (c_fields k) ->
+                                   In d (ty_classes (f_ty f)) -> R d.
+  Hypothesis H_sreg : forall c k, R c -> lookup_cls ct c = Some k -> mem_N c sreg = true.
+  Hypothesis H_ureg : forall c k, R c -> lookup_cls ct c = Some k -> mem_N c ureg = true.
+  Definition inR (T : ty) : Prop := forall d, In d (ty_classes T) -> R d.
 
   Notation S := (structure b64dec dt_parse date_parse uuid_parse time_parse int_of_str float_of_str str_of_json ct sreg).
   Notation Sstr := (structure_str b64dec dt_parse date_parse uuid_parse time_parse int_of_str float_of_str ct sreg).
@@ -239,11 +244,11 @@ Section RoundTrip.
   Qed.
 
   Lemma lift_opt : forall v,
-    (forall T, is_opt T = false -> ty_ok T = true -> IOK T v -> Q v T) ->
-    forall T, ty_ok T = true -> IOK T v -> Q v T.
+    (forall T, is_opt T = false -> ty_ok T = true -> inR T -> IOK T v -> Q v T) ->
+    forall T, ty_ok T = true -> inR T -> IOK T v -> Q v T.
   Proof.
-    intros v Hno T Hok Hi.
-    destruct T; try (apply Hno; [reflexivity | exact Hok | exact Hi]).
+    intros v Hno T Hok HR Hi.
+    destruct T; try (apply Hno; [reflexivity | exact Hok | exact HR | exact Hi]).
     cbn [ty_ok] in Hok. apply andb_true_iff in Hok as [Hok1 Hok2].
     inversion Hi; subst.
     - exists JNull. split; [reflexivity|]. split; [reflexivity|]. split.
@@ -251,7 +256,7 @@ Section RoundTrip.
       + intros c Hc. discriminate.
     - apply Q_opt; [assumption | destruct T; try reflexivity; try discriminate Hok2;
                                   destruct T; try reflexivity; discriminate Hok2 |].
-      apply Hno; [destruct T; try reflexivity; discriminate Hok2 | exact Hok1 | assumption].
+      apply Hno; [destruct T; try reflexivity; discriminate Hok2 | exact Hok1 | exact HR | assumption].
   Qed.
 
   Lemma map_result_cons : forall {A B} (f : A -> result B) x l,
@@ -284,21 +289,21 @@ Section RoundTrip.
       rewrite !map_result_cons. cbn [fst snd]. rewrite Hu, Hs, E1, E2. split; reflexivity.
   Qed.
 
-  Lemma Forall2_fields : forall (R : field -> str * value -> Prop) fields fs,
-    Forall2 R fields fs -> map fst fs = map f_name fields ->
-    forall f, In f fields -> exists kv, In kv fs /\ fst kv = f_name f /\ R f kv.
+  Lemma Forall2_fields : forall (Rel : field -> str * value -> Prop) fields fs,
+    Forall2 Rel fields fs -> map fst fs = map f_name fields ->
+    forall f, In f fields -> exists kv, In kv fs /\ fst kv = f_name f /\ Rel f kv.
   Proof.
-    intros R fields fs H. induction H as [|f kv fields fs HR _ IH]; intros Hm g Hg; [destruct Hg|].
+    intros Rel fields fs H. induction H as [|f kv fields fs HR _ IH]; intros Hm g Hg; [destruct Hg|].
     cbn [map] in Hm. inversion Hm as [[Hh Ht]]. destruct Hg as [-> | Hg].
     - exists kv. split; [left; reflexivity | split; assumption].
     - destruct (IH Ht g Hg) as [kv' [Hin [Hn Hr]]]. exists kv'. split; [right; exact Hin | split; assumption].
   Qed.
 
-  Lemma data_rt : forall c k fs,
+  Lemma data_rt : forall c k fs, R c ->
     lookup_cls ct c = Some k -> map fst fs = map f_name (c_fields k) ->
     Forall2 (fun f kv => Q (snd kv) (f_ty f)) (c_fields k) fs -> Q (VData c fs) (TData c).
   Proof.
-    intros c k fs Hk Hnames HQ.
+    intros c k fs HRc Hk Hnames HQ.
     destruct (H_ct c k Hk) as [_ [[Hnd_n [Hnd_w Hdump]] [Htyok _]]].
     assert (Hnd_fs : NoDup (map fst fs)) by (rewrite Hnames; exact Hnd_n).
     assert (Hpt : forall f, In f (c_fields k) -> exists v, alookup (f_name f) fs = Some v /\ Q v (f_ty f)).
@@ -314,14 +319,14 @@ Section RoundTrip.
     { unfold kvs'. rewrite map_map. cbn [fst]. exact Hnd_w. }
     exists (JObj kvs'). split; [|split; [|split]].
     - rewrite U_unfold. cbn [ukl ukd unstructure_node unstructure_nonopt]. rewrite N.eqb_refl.
-      unfold unstructure_data. rewrite Hk, (H_ureg c k Hk).
+      unfold unstructure_data. rewrite Hk, (H_ureg c k HRc Hk).
       rewrite (map_result_pointwise _ (fun f => (wire k f, jf f))).
       + cbn [bind]. fold kvs'. rewrite dict_of_NoDup by exact Hnd'. reflexivity.
       + intros f Hf. rewrite alookup_map_snd. destruct (Hpt f Hf) as [v [Hl _]].
         destruct (HU f Hf) as [Hu _]. unfold vf in Hu. rewrite Hl in *. cbn [option_map].
         rewrite Hu. cbn [bind]. rewrite (Hdump f Hf). reflexivity.
     - rewrite S_unfold. cbn [skl skd structure_node structure_nonopt]. unfold structure_data.
-      rewrite Hk, (H_sreg c k Hk).
+      rewrite Hk, (H_sreg c k HRc Hk).
       assert (Heb : existsb (fun f => eager_bad (f_ty f)) (c_fields k) = false).
       { apply not_true_is_false. intro He. apply existsb_exists in He as [f [Hf He]].
         rewrite (ty_ok_not_eager _ (Htyok f Hf)) in He. discriminate. }
@@ -353,9 +358,9 @@ Section RoundTrip.
 
   (* encode then decode: every conforming instance is encoded, and decoding the result gives the
      instance back *)
-  Theorem encode_decode_core : forall v T, ty_ok T = true -> IOK T v -> Q v T.
+  Theorem encode_decode_core : forall v T, ty_ok T = true -> inR T -> IOK T v -> Q v T.
   Proof.
-    induction v using value_ind'; apply lift_opt; intros T Hno Hok Hi;
+    induction v using value_ind'; apply lift_opt; intros T Hno Hok HR Hi;
       inversion Hi; subst; try discriminate Hno; try apply Q_any;
       try (match goal with
            | H : inject ?j = VWrap _ |- _ => destruct j; discriminate H
@@ -376,7 +381,7 @@ Section RoundTrip.
     - (* list *)
       cbn [ty_ok] in Hok.
       assert (HQ : Forall (fun x => Q x X) l).
-      { rewrite Forall_forall in *. intros x Hx. apply H; auto. }
+      { rewrite Forall_forall in *. intros x Hx. apply H; [exact Hx | exact Hok | exact HR | auto]. }
       destruct (list_rt X l HQ) as [l' [E1 E2]].
       exists (JArr l'). split; [|split; [|split]].
       + rewrite U_unfold. cbn [ukl ukd unstructure_node unstructure_nonopt].
@@ -388,7 +393,7 @@ Section RoundTrip.
     - (* dict *)
       cbn [ty_ok] in Hok.
       assert (HQ : Forall (fun kv => Q (snd kv) X) kvs).
-      { rewrite Forall_forall in *. intros x Hx. apply H; auto. }
+      { rewrite Forall_forall in *. intros x Hx. apply H; [exact Hx | exact Hok | exact HR | auto]. }
       destruct (dict_rt X kvs HQ) as [kvs' [E1 E2]].
       exists (JObj kvs'). split; [|split; [|split]].
       + rewrite U_unfold. cbn [ukl ukd unstructure_node unstructure_nonopt].
@@ -399,12 +404,14 @@ Section RoundTrip.
       + intros ? ?. discriminate.
     - (* dataclass *)
       match goal with Hk : lookup_cls ct c = Some ?k |- _ =>
-        apply (data_rt c k fs Hk); [assumption|];
-        destruct (H_ct c k Hk) as [_ [_ [Htyok _]]] end.
+        apply (data_rt c k fs (HR c (or_introl eq_refl)) Hk); [assumption|];
+        destruct (H_ct c k Hk) as [_ [_ [Htyok _]]];
+        assert (HRf : forall g, In g (c_fields k) -> inR (f_ty g))
+          by (intros g Hg d Hd; exact (H_R c k g d (HR c (or_introl eq_refl)) Hk Hg Hd)) end.
       match goal with HF : Forall2 _ (c_fields ?k) fs |- _ =>
-        clear - H HF Htyok; induction HF as [|f kv fields fs' Hfk _ IH]; constructor end.
-      + inversion H; subst. apply H2; [apply Htyok; left; reflexivity | exact Hfk].
-      + inversion H; subst. apply IH; [assumption|]. intros g Hg. apply Htyok. right. exact Hg.
+        clear - H HF Htyok HRf; induction HF as [|f kv fields fs' Hfk _ IH]; constructor end.
+      + inversion H; subst. apply H2; [apply Htyok; left; reflexivity | apply HRf; left; reflexivity | exact Hfk].
+      + inversion H; subst. apply IH; try assumption; intros g Hg; first [apply Htyok | apply HRf]; right; exact Hg.
     - leaf (JStr s). cbn [structure structure_str].
       match goal with H : uuid_parse s = Some s |- _ => rewrite H end. reflexivity.
     - leaf (JStr s). cbn [structure structure_str].
@@ -453,11 +460,11 @@ Section RoundTrip.
   Proof. intros c j H. inversion H; subst. eexists. reflexivity. Qed.
 
   Lemma D_lift : forall j,
-    (forall T, is_opt T = false -> ty_ok T = true -> CONF T j -> D j T) ->
-    forall T, ty_ok T = true -> CONF T j -> D j T.
+    (forall T, is_opt T = false -> ty_ok T = true -> inR T -> CONF T j -> D j T) ->
+    forall T, ty_ok T = true -> inR T -> CONF T j -> D j T.
   Proof.
-    intros j Hno T Hok Hc.
-    destruct T; try (apply Hno; [reflexivity | exact Hok | exact Hc]).
+    intros j Hno T Hok HR Hc.
+    destruct T; try (apply Hno; [reflexivity | exact Hok | exact HR | exact Hc]).
     cbn [ty_ok] in Hok. apply andb_true_iff in Hok as [Hok1 Hok2].
     assert (HX : opt_arg_ok T = true).
     { destruct T; try reflexivity; try discriminate Hok2. destruct T; try reflexivity; discriminate Hok2. }
@@ -465,7 +472,7 @@ Section RoundTrip.
     - exists VNone, JNull. split; [reflexivity|]. split; [reflexivity|]. split; [apply R_null|].
       intro H. exfalso. apply H. reflexivity.
     - destruct (Hno T) as [v [j' [Hs [Hu [Hr Hn]]]]];
-        [destruct T; try reflexivity; discriminate Hok2 | exact Hok1 | assumption |].
+        [destruct T; try reflexivity; discriminate Hok2 | exact Hok1 | exact HR | assumption |].
       exists v, j'. split; [|split; [|split]].
       + apply S_opt; try assumption. intros c ->. eapply conforms_data_obj. eassumption.
       + apply U_opt; auto.
@@ -544,13 +551,13 @@ Section RoundTrip.
     map fst (combine (map f l) (map g l)) = map f l.
   Proof. intros A B C f g. induction l as [|a l IH]; [reflexivity|]. cbn [map combine fst]. rewrite IH. reflexivity. Qed.
 
-  Lemma data_de : forall c k kvs,
+  Lemma data_de : forall c k kvs, R c ->
     lookup_cls ct c = Some k -> NoDup (map fst kvs) ->
     (forall key v, In (key, v) kvs -> exists f, In f (c_fields k) /\ wire k f = key /\ D v (f_ty f)) ->
     (forall f, In f (c_fields k) -> f_default f = None -> In (wire k f) (map fst kvs)) ->
     D (JObj kvs) (TData c).
   Proof.
-    intros c k kvs Hk Hnd Hkeys Hreq.
+    intros c k kvs HRc Hk Hnd Hkeys Hreq.
     destruct (H_ct c k Hk) as [_ [[Hnd_n [Hnd_w Hdump]] [Htyok _]]].
     pose (vf := fun f : field =>
             match alookup (wire k f) kvs with
@@ -586,7 +593,7 @@ Section RoundTrip.
     assert (Hfs_names : map fst fs = names) by (unfold fs, names; apply map_fst_combine_map).
     exists (VData c fs), (JObj kvs'). split; [|split; [|split]].
     - rewrite S_unfold. cbn [skl skd structure_node structure_nonopt]. unfold structure_data.
-      rewrite Hk, (H_sreg c k Hk).
+      rewrite Hk, (H_sreg c k HRc Hk).
       assert (Heb : existsb (fun f => eager_bad (f_ty f)) (c_fields k) = false).
       { apply not_true_is_false. intro He. apply existsb_exists in He as [f [Hf He]].
         rewrite (ty_ok_not_eager _ (Htyok f Hf)) in He. discriminate. }
@@ -595,7 +602,7 @@ Section RoundTrip.
       intros f Hf. rewrite alookup_map_snd. destruct (Hpt f Hf) as [H1 _]. unfold wire in H1.
       destruct (alookup (load_key k true (f_name f)) kvs); cbn [option_map]; exact H1.
     - rewrite U_unfold. cbn [ukl ukd unstructure_node unstructure_nonopt]. rewrite N.eqb_refl.
-      unfold unstructure_data. rewrite Hk, (H_ureg c k Hk).
+      unfold unstructure_data. rewrite Hk, (H_ureg c k HRc Hk).
       rewrite (map_result_pointwise _ (fun f => (wire k f, jf f))).
       + cbn [bind]. fold kvs'. rewrite dict_of_NoDup by exact Hnd'. reflexivity.
       + intros f Hf. rewrite alookup_map_snd.
@@ -615,9 +622,9 @@ Section RoundTrip.
 
   (* decode then encode: every conforming document is decoded, and encoding the instance gives the
      document back (keys in class order, absent optional keys as null / empty container) *)
-  Theorem decode_encode_core : forall j T, ty_ok T = true -> CONF T j -> D j T.
+  Theorem decode_encode_core : forall j T, ty_ok T = true -> inR T -> CONF T j -> D j T.
   Proof.
-    induction j using json_ind'; apply D_lift; intros T Hno Hok Hc;
+    induction j using json_ind'; apply D_lift; intros T Hno Hok HR Hc;
       inversion Hc; subst; try discriminate Hno; try apply D_any.
     all: try (eexists _, _; split; [reflexivity|]; split; [reflexivity|];
               split; [apply R_leaf; reflexivity | intros _ ?; discriminate]).
@@ -644,7 +651,7 @@ Section RoundTrip.
     - (* list *)
       cbn [ty_ok] in Hok.
       assert (HD : Forall (fun x => D x X) l).
-      { rewrite Forall_forall in *. intros x Hx. apply H; auto. }
+      { rewrite Forall_forall in *. intros x Hx. apply H; [exact Hx | exact Hok | exact HR | auto]. }
       destruct (list_de X l HD) as [vs [l' [E1 [E2 F]]]].
       exists (VList vs), (JArr l'). split; [|split; [|split]].
       + rewrite S_unfold. cbn [skl skd structure_node structure_nonopt].
@@ -656,7 +663,7 @@ Section RoundTrip.
     - (* dict *)
       cbn [ty_ok] in Hok.
       assert (HD : Forall (fun kv => D (snd kv) X) kvs).
-      { rewrite Forall_forall in *. intros x Hx. apply H; auto. }
+      { rewrite Forall_forall in *. intros x Hx. apply H; [exact Hx | exact Hok | exact HR | auto]. }
       destruct (dict_de X kvs HD) as [vs [kvs' [E1 [E2 F]]]].
       exists (VDict vs), (JObj kvs'). split; [|split; [|split]].
       + rewrite S_unfold. cbn [skl skd structure_node structure_nonopt].
@@ -667,15 +674,46 @@ Section RoundTrip.
       + intros _ ?. discriminate.
     - (* dataclass *)
       match goal with Hk : lookup_cls ct c = Some ?k |- _ =>
-        apply (data_de c k kvs Hk); try assumption;
-        destruct (H_ct c k Hk) as [_ [_ [Htyok _]]] end.
+        apply (data_de c k kvs (HR c (or_introl eq_refl)) Hk); try assumption;
+        destruct (H_ct c k Hk) as [_ [_ [Htyok _]]];
+        assert (HRf : forall g, In g (c_fields k) -> inR (f_ty g))
+          by (intros g Hg d Hd; exact (H_R c k g d (HR c (or_introl eq_refl)) Hk Hg Hd)) end.
       intros key v Hin.
       match goal with Hkeys : forall key v, In (key, v) kvs -> _ |- _ =>
         destruct (Hkeys key v Hin) as [f [Hf [Hw Hcv]]] end.
       exists f. split; [exact Hf|]. split; [exact Hw|].
-      rewrite Forall_forall in H. apply (H (key, v) Hin); [apply Htyok; exact Hf | exact Hcv].
+      rewrite Forall_forall in H. apply (H (key, v) Hin); [apply Htyok; exact Hf | apply HRf; exact Hf | exact Hcv].
   Qed.
 End RoundTrip.
+
+(* the all-classes-hooked instances (R = every class) *)
+Lemma encode_decode_all :
+  forall b64dec b64enc dt_parse date_parse uuid_parse time_parse int_of_str float_of_str str_of_json ct sreg ureg,
+    (forall b, b64dec (b64enc b) = Some b) -> ct_ok ct -> all_hooked ct sreg -> all_hooked ct ureg ->
+    forall v T, ty_ok T = true -> inst_ok dt_parse date_parse uuid_parse time_parse ct T v ->
+    Q b64dec b64enc dt_parse date_parse uuid_parse time_parse int_of_str float_of_str str_of_json ct sreg ureg v T.
+Proof.
+  intros until ureg. intros Hb Hct Hs Hu v T Hok Hi.
+  apply (encode_decode_core b64dec b64enc dt_parse date_parse uuid_parse time_parse int_of_str float_of_str
+           str_of_json ct sreg ureg Hb Hct (fun _ => True)); auto.
+  - intros c k _ Hk. exact (Hs c k Hk).
+  - intros c k _ Hk. exact (Hu c k Hk).
+  - intros d _. exact I.
+Qed.
+
+Lemma decode_encode_all :
+  forall b64dec b64enc dt_parse date_parse uuid_parse time_parse int_of_str float_of_str str_of_json ct sreg ureg,
+    (forall b, b64dec (b64enc b) = Some b) -> ct_ok ct -> all_hooked ct sreg -> all_hooked ct ureg -> defaults_ok ct ->
+    forall j T, ty_ok T = true -> conforms b64enc dt_parse date_parse uuid_parse time_parse ct T j ->
+    D b64dec b64enc dt_parse date_parse uuid_parse time_parse int_of_str float_of_str str_of_json ct sreg ureg j T.
+Proof.
+  intros until ureg. intros Hb Hct Hs Hu Hd j T Hok Hc.
+  apply (decode_encode_core b64dec b64enc dt_parse date_parse uuid_parse time_parse int_of_str float_of_str
+           str_of_json ct sreg ureg Hb Hct (fun _ => True)); auto.
+  - intros c k _ Hk. exact (Hs c k Hk).
+  - intros c k _ Hk. exact (Hu c k Hk).
+  - intros d _. exact I.
+Qed.
 
 (* ---------- only ValueError leaves structure_from_dict (the shape of its try/except) ---------- *)
 Lemma errors_only_ValueError :
@@ -753,8 +791,36 @@ Qed.
 
 (* ======================================================================================
    Independence from the prior history: the result depends on the registry only through the
-   classes of the table, and the entry points register those themselves
+   classes reachable from the annotation, and the entry points register exactly those themselves
    ====================================================================================== *)
+Lemma map_result_ext_in : forall {A B} (f g : A -> result B) l,
+  (forall x, In x l -> f x = g x) -> map_result f l = map_result g l.
+Proof.
+  intros A B f g. induction l as [|x l IH]; intro H; [reflexivity|].
+  rewrite !map_result_cons, (H x (or_introl eq_refl)), IH; [reflexivity|].
+  intros y Hy. apply H. right. exact Hy.
+Qed.
+
+Lemma map_result_Forall2_ext : forall {A A' B} (f : A -> result B) (g : A' -> result B) l1 l2,
+  Forall2 (fun a b => f a = g b) l1 l2 -> map_result f l1 = map_result g l2.
+Proof.
+  intros A A' B f g l1 l2 H. induction H as [|a b l1 l2 Hab _ IH]; [reflexivity|].
+  rewrite !map_result_cons, Hab, IH. reflexivity.
+Qed.
+
+Lemma Forall2_weaken : forall {A B} (P Q : A -> B -> Prop) l1 l2,
+  (forall a b, P a b -> Q a b) -> Forall2 P l1 l2 -> Forall2 Q l1 l2.
+Proof. intros A B P Q l1 l2 H F. induction F; constructor; auto. Qed.
+
+Lemma ty_classes_strip : forall T, ty_classes (strip_opt T) = ty_classes T.
+Proof. induction T; cbn [strip_opt ty_classes]; auto. Qed.
+
+Lemma mem_N_app : forall c a b, mem_N c (a ++ b) = mem_N c a || mem_N c b.
+Proof. intros. unfold mem_N. apply existsb_app. Qed.
+
+Lemma mem_N_In : forall c l, In c l -> mem_N c l = true.
+Proof. intros c l H. unfold mem_N. apply existsb_exists. exists c. split; [exact H | apply N.eqb_refl]. Qed.
+
 Section History.
   Variable b64dec : str -> option (list N).
   Variable b64enc : list N -> str.
@@ -763,32 +829,31 @@ Section History.
   Variable str_of_json : json -> str.
   Variable ct : list cls.
 
+  (* a set of classes closed under "a field of c mentions d" *)
+  Variable R : N -> Prop.
+  Hypothesis H_R : forall c k f d, R c -> lookup_cls ct c = Some k -> In f (c_fields k) ->
+                                   In d (ty_classes (f_ty f)) -> R d.
+  Definition inRh (T : ty) : Prop := forall d, In d (ty_classes T) -> R d.
+
+  (* two registries that agree on it *)
   Definition reg_equiv (r1 r2 : list N) : Prop :=
-    forall c k, lookup_cls ct c = Some k -> mem_N c r1 = mem_N c r2.
+    forall c k, R c -> lookup_cls ct c = Some k -> mem_N c r1 = mem_N c r2.
 
   Notation Sr r := (structure b64dec dt_parse date_parse uuid_parse time_parse int_of_str float_of_str str_of_json ct r).
   Notation Sstr r := (structure_str b64dec dt_parse date_parse uuid_parse time_parse int_of_str float_of_str ct r).
   Notation Ur r := (unstructure b64enc ct r).
 
-  Lemma map_result_ext_in : forall {A B} (f g : A -> result B) l,
-    (forall x, In x l -> f x = g x) -> map_result f l = map_result g l.
+  Lemma structure_str_equiv : forall r1 r2, reg_equiv r1 r2 -> forall T s, inRh T -> Sstr r1 T s = Sstr r2 T s.
   Proof.
-    intros A B f g. induction l as [|x l IH]; intro H; [reflexivity|].
-    rewrite !map_result_cons, (H x (or_introl eq_refl)), IH; [reflexivity|].
-    intros y Hy. apply H. right. exact Hy.
+    intros r1 r2 He. induction T; intros s HT; cbn [structure_str]; try reflexivity.
+    - destruct (eager_bad T); [reflexivity|].
+      f_equal. apply map_result_ext_in. intros c _. apply IHT. exact HT.
+    - destruct T; try reflexivity; try (apply IHT; exact HT).
+    - destruct (lookup_cls ct c) as [k|] eqn:Ek; [|reflexivity].
+      rewrite (He c k (HT c (or_introl eq_refl)) Ek). reflexivity.
   Qed.
 
-  Lemma structure_str_equiv : forall r1 r2, reg_equiv r1 r2 -> forall T s, Sstr r1 T s = Sstr r2 T s.
-  Proof.
-    intros r1 r2 He. induction T; intro s; cbn [structure_str]; try reflexivity.
-    - (* list *) destruct (eager_bad T); [reflexivity|].
-      f_equal. apply map_result_ext_in. intros c _. apply IHT.
-    - (* opt *) destruct T; try reflexivity; try (apply IHT).
-    - (* data *) destruct (lookup_cls ct c) as [k|] eqn:Ek; [|reflexivity].
-      rewrite (He c k Ek). reflexivity.
-  Qed.
-
-  Definition kid_equiv {A} (f g : ty -> result A) : Prop := forall T, f T = g T.
+  Definition kid_equiv {A} (f g : ty -> result A) : Prop := forall T, inRh T -> f T = g T.
   Definition kd_equiv {A} (kd1 kd2 : list (str * (ty -> result A))) : Prop :=
     Forall2 (fun a b => fst a = fst b /\ kid_equiv (snd a) (snd b)) kd1 kd2.
 
@@ -804,17 +869,6 @@ Section History.
     cbn [fst snd] in *. subst k2. cbn [alookup]. destruct (str_eqb key k1); [exact Hf | exact IH].
   Qed.
 
-  Lemma map_result_Forall2_ext : forall {A A' B} (f : A -> result B) (g : A' -> result B) l1 l2,
-    Forall2 (fun a b => f a = g b) l1 l2 -> map_result f l1 = map_result g l2.
-  Proof.
-    intros A A' B f g l1 l2 H. induction H as [|a b l1 l2 Hab _ IH]; [reflexivity|].
-    rewrite !map_result_cons, Hab, IH. reflexivity.
-  Qed.
-
-  Lemma Forall2_weaken : forall {A B} (P Q : A -> B -> Prop) l1 l2,
-    (forall a b, P a b -> Q a b) -> Forall2 P l1 l2 -> Forall2 Q l1 l2.
-  Proof. intros A B P Q l1 l2 H F. induction F; constructor; auto. Qed.
-
   Section Node.
     Variables r1 r2 : list N.
     Hypothesis He : reg_equiv r1 r2.
@@ -824,105 +878,186 @@ Section History.
     Hypothesis Hkl : Forall2 kid_equiv kl1 kl2.
     Hypothesis Hkd : kd_equiv kd1 kd2.
 
-    Lemma data_equiv : forall c, structure_data ct r1 j kd1 c = structure_data ct r2 j kd2 c.
+    Lemma data_equiv : forall c, R c -> structure_data ct r1 j kd1 c = structure_data ct r2 j kd2 c.
     Proof.
-      intro c. unfold structure_data.
-      destruct (lookup_cls ct c) as [k|] eqn:Ek; [|reflexivity]. rewrite (He c k Ek).
+      intros c Hc. unfold structure_data.
+      destruct (lookup_cls ct c) as [k|] eqn:Ek; [|reflexivity]. rewrite (He c k Hc Ek).
       destruct (existsb _ _); [reflexivity|].
       destruct j; try reflexivity.
-      f_equal. apply map_result_ext_in. intros f _.
+      f_equal. apply map_result_ext_in. intros f Hf.
       pose proof (alookup_equiv kd1 kd2 (load_key k (mem_N c r2) (f_name f)) Hkd) as Ha.
-      destruct (alookup _ kd1), (alookup _ kd2); try contradiction; [apply Ha | reflexivity].
+      destruct (alookup _ kd1), (alookup _ kd2); try contradiction; [|reflexivity].
+      apply Ha. intros d Hd. exact (H_R c k f d Hc Ek Hf Hd).
     Qed.
 
-    Lemma nonopt_equiv : forall T,
+    Lemma nonopt_equiv : forall T, inRh T ->
       structure_nonopt b64dec dt_parse date_parse uuid_parse time_parse int_of_str float_of_str str_of_json ct r1 j kl1 kd1 T =
       structure_nonopt b64dec dt_parse date_parse uuid_parse time_parse int_of_str float_of_str str_of_json ct r2 j kl2 kd2 T.
     Proof.
-      intro T. destruct T; cbn [structure_nonopt]; try reflexivity.
+      intros T HT. destruct T; cbn [structure_nonopt]; try reflexivity.
       - destruct (eager_bad T); [reflexivity|]. destruct j; try reflexivity.
-        + f_equal. apply map_result_Forall2_ext. eapply Forall2_weaken; [|exact Hkl]. intros a b Hab. apply Hab.
+        + f_equal. apply map_result_Forall2_ext. eapply Forall2_weaken; [|exact Hkl]. intros a b Hab. apply Hab. exact HT.
         + f_equal. apply map_result_Forall2_ext. eapply Forall2_weaken; [|exact Hkd].
-          intros a b [Hk _]. rewrite Hk. apply structure_str_equiv. exact He.
+          intros a b [Hk _]. rewrite Hk. apply structure_str_equiv; [exact He | exact HT].
       - destruct (eager_bad T); [reflexivity|]. destruct j; try reflexivity.
         f_equal. apply map_result_Forall2_ext. eapply Forall2_weaken; [|exact Hkd].
-        intros a b [Hk Hf]. rewrite Hk, (Hf T). reflexivity.
-      - apply data_equiv.
+        intros a b [Hk Hf]. rewrite Hk, (Hf T HT). reflexivity.
+      - apply data_equiv. apply HT. left. reflexivity.
       - destruct j; try reflexivity.
         f_equal. apply map_result_Forall2_ext. eapply Forall2_weaken; [|exact Hkd].
-        intros a b [Hk Hf]. rewrite Hk, (Hf T). reflexivity.
+        intros a b [Hk Hf]. rewrite Hk, (Hf T HT). reflexivity.
     Qed.
 
-    Lemma node_equiv : forall T,
+    Lemma node_equiv : forall T, inRh T ->
       structure_node b64dec dt_parse date_parse uuid_parse time_parse int_of_str float_of_str str_of_json ct r1 j kl1 kd1 T =
       structure_node b64dec dt_parse date_parse uuid_parse time_parse int_of_str float_of_str str_of_json ct r2 j kl2 kd2 T.
     Proof.
-      intro T. destruct T; cbn [structure_node]; try apply nonopt_equiv.
+      intros T HT. destruct T; cbn [structure_node]; try (apply nonopt_equiv; exact HT).
+      assert (HS : inRh (strip_opt T)) by (unfold inRh; rewrite ty_classes_strip; exact HT).
       destruct j eqn:Ej; try reflexivity;
         destruct (strip_opt T) as [| | | | | | | | | |X|X|X|c|vals|c|X] eqn:Es; try reflexivity;
-        try (rewrite <- Ej; apply nonopt_equiv); try (rewrite <- Ej; apply data_equiv);
-        try (destruct X; try reflexivity; rewrite <- Ej; apply nonopt_equiv).
+        try (rewrite <- Ej; apply nonopt_equiv; exact HS);
+        try (rewrite <- Ej; apply data_equiv; apply HS; left; reflexivity);
+        try (destruct X; try reflexivity; rewrite <- Ej; apply nonopt_equiv; exact HS).
     Qed.
   End Node.
 
-  Lemma structure_equiv : forall r1 r2, reg_equiv r1 r2 -> forall j T, Sr r1 j T = Sr r2 j T.
+  Lemma structure_equiv : forall r1 r2, reg_equiv r1 r2 -> forall j T, inRh T -> Sr r1 j T = Sr r2 j T.
   Proof.
-    intros r1 r2 He. induction j using json_ind'; intro T; cbn [structure].
-    1-4: apply (node_equiv r1 r2 He); constructor.
-    - apply structure_str_equiv. exact He.
-    - apply (node_equiv r1 r2 He); [|constructor].
+    intros r1 r2 He. induction j using json_ind'; intros T HT; cbn [structure].
+    1-4: apply (node_equiv r1 r2 He); [constructor | constructor | exact HT].
+    - apply structure_str_equiv; assumption.
+    - apply (node_equiv r1 r2 He); [|constructor | exact HT].
       induction H as [|x l Hx _ IH]; cbn [map]; constructor; [exact Hx | exact IH].
-    - apply (node_equiv r1 r2 He); [constructor|].
+    - apply (node_equiv r1 r2 He); [constructor| | exact HT].
       induction H as [|[k v] l Hv _ IH]; cbn [map]; constructor; [|exact IH].
       cbn [fst snd]. split; [reflexivity | exact Hv].
   Qed.
 
-  (* what the registration walk must achieve for this table (executable; evaluated on the cases) *)
-  Definition reaches_all (T : ty) : bool := forallb (fun k => mem_N (c_id k) (reach ct T)) ct.
+  (* the encode side: the same for unstructure, on instances that conform to their annotation (no
+     instance of an unrelated class hidden under Any — that is finding F16b) *)
+  Hypothesis H_ct : ct_ok ct.
+  Notation IOK := (inst_ok dt_parse date_parse uuid_parse time_parse ct).
 
-  Lemma lookup_in : forall c k, lookup_cls ct c = Some k -> In k ct /\ c_id k = c.
+  Lemma U_opt_eq : forall r v X, v <> VNone -> is_opt X = false -> Ur r v (TOpt X) = Ur r v X.
   Proof.
-    intros c k H. unfold lookup_cls in H. apply find_some in H as [Hin He].
-    apply N.eqb_eq in He. split; assumption.
+    intros r v X Hv HX. rewrite !U_unfold.
+    destruct X; try discriminate HX; destruct v; try (exfalso; apply Hv; reflexivity); reflexivity.
   Qed.
 
-  Lemma mem_N_app : forall c a b, mem_N c (a ++ b) = mem_N c a || mem_N c b.
-  Proof. intros. unfold mem_N. apply existsb_app. Qed.
-
-  Lemma reaches_all_hooked : forall T extra, reaches_all T = true -> all_hooked ct (reach ct T ++ extra).
+  Lemma unstructure_equiv : forall r1 r2, reg_equiv r1 r2 -> forall v T, ty_ok T = true -> inRh T ->
+    IOK T v -> Ur r1 v T = Ur r2 v T.
   Proof.
-    intros T extra H c k Hk. destruct (lookup_in c k Hk) as [Hin Hid].
-    unfold reaches_all in H. rewrite forallb_forall in H. specialize (H k Hin).
-    rewrite Hid in H. rewrite mem_N_app, H. reflexivity.
+    intros r1 r2 He.
+    assert (Hany : forall j, Ur r1 (inject j) TAny = Ur r2 (inject j) TAny)
+      by (intro j; rewrite !U_inject; reflexivity).
+    assert (Hlift : forall v,
+              (forall T, is_opt T = false -> ty_ok T = true -> inRh T -> IOK T v -> Ur r1 v T = Ur r2 v T) ->
+              forall T, ty_ok T = true -> inRh T -> IOK T v -> Ur r1 v T = Ur r2 v T).
+    { intros v Hno T Hok HT Hi. destruct T; try (apply Hno; [reflexivity | exact Hok | exact HT | exact Hi]).
+      cbn [ty_ok] in Hok. apply andb_true_iff in Hok as [Hok1 Hok2].
+      assert (HX : is_opt T = false) by (destruct T; try reflexivity; discriminate Hok2).
+      inversion Hi; subst; [reflexivity|].
+      rewrite !U_opt_eq by assumption. apply Hno; assumption. }
+    induction v using value_ind'; apply Hlift; intros T Hno Hok HT Hi;
+      inversion Hi; subst; try discriminate Hno; try apply Hany; try reflexivity.
+    - (* list *)
+      cbn [ty_ok] in Hok. rewrite !U_unfold. cbn [ukl ukd unstructure_node unstructure_nonopt].
+      rewrite !map_result_map. f_equal. apply map_result_ext_in. intros x Hx.
+      rewrite Forall_forall in *. apply H; auto.
+    - (* dict *)
+      cbn [ty_ok] in Hok. rewrite !U_unfold. cbn [ukl ukd unstructure_node unstructure_nonopt].
+      rewrite !map_result_map. cbn [fst snd]. f_equal. apply map_result_ext_in. intros x Hx.
+      rewrite Forall_forall in *. rewrite (H x Hx X); auto.
+    - (* dataclass *)
+      match goal with Hk : lookup_cls ct c = Some ?k |- _ =>
+        destruct (H_ct c k Hk) as [_ [[Hnd_n _] [Htyok _]]];
+        assert (Hc : R c) by (apply HT; left; reflexivity);
+        rewrite !U_unfold; cbn [ukl ukd unstructure_node unstructure_nonopt]; rewrite N.eqb_refl;
+        unfold unstructure_data; rewrite Hk, (He c k Hc Hk) end.
+      f_equal. apply map_result_ext_in. intros f Hf. rewrite !alookup_map_snd.
+      match goal with HF : Forall2 _ (c_fields ?k) fs, Hm : map fst fs = _ |- _ =>
+        destruct (Forall2_fields _ _ _ HF Hm f Hf) as [[n v] [Hin [Hn Hiv]]] end.
+      cbn [fst snd] in *. subst n.
+      rewrite (alookup_In_NoDup fs (f_name f) v);
+        [|match goal with Hm : map fst fs = _ |- _ => rewrite Hm; exact Hnd_n end | exact Hin].
+      cbn [option_map]. rewrite Forall_forall in H.
+      pose proof (H (f_name f, v) Hin (f_ty f)) as Hx. cbn [snd] in Hx.
+      rewrite Hx; [reflexivity | apply Htyok; exact Hf | | exact Hiv].
+      intros d Hd. match goal with Hk : lookup_cls ct c = Some _ |- _ => exact (H_R c _ f d Hc Hk Hf Hd) end.
+  Qed.
+End History.
+
+(* ---------- the two entry points, any prior state ---------- *)
+Section Api.
+  Variable b64dec : str -> option (list N).
+  Variable b64enc : list N -> str.
+  Variable dt_parse date_parse uuid_parse time_parse : str -> option str.
+  Variable int_of_str float_of_str : str -> option Z.
+  Variable str_of_json : json -> str.
+  Variable ct : list cls.
+
+  Definition Rof (T : ty) : N -> Prop := fun d => In d (reach ct T).
+
+  Lemma Rof_closed : forall T c k f d, Rof T c -> lookup_cls ct c = Some k -> In f (c_fields k) ->
+    In d (ty_classes (f_ty f)) -> Rof T d.
+  Proof.
+    intros T c k f d Hc Hk Hf Hd. unfold Rof in *.
+    exact (stable_fields ct (reach ct T) c k f (proj2 (reach_closed ct T)) Hc Hk Hf d Hd).
   Qed.
 
-  (* structure_from_dict: whatever was registered or structured before, the outcome is the same *)
-  Theorem history_free_partial : forall T, reaches_all T = true -> forall st1 st2 j,
+  Lemma Rof_in : forall T d, In d (ty_classes T) -> Rof T d.
+  Proof. intros T d Hd. exact (proj1 (reach_closed ct T) d Hd). Qed.
+
+  Lemma Rof_hooked : forall T extra c, Rof T c -> mem_N c (reach ct T ++ extra) = true.
+  Proof. intros T extra c Hc. rewrite mem_N_app, (mem_N_In c _ Hc). reflexivity. Qed.
+
+  (* structure_from_dict: whatever was registered or structured before, the outcome is the same — for
+     every annotation, every document (conforming or not), every pair of prior states *)
+  Theorem history_free_full : forall T st1 st2 j,
     snd (structure_from_dict b64dec dt_parse date_parse uuid_parse time_parse int_of_str float_of_str str_of_json ct st1 T j) =
     snd (structure_from_dict b64dec dt_parse date_parse uuid_parse time_parse int_of_str float_of_str str_of_json ct st2 T j).
   Proof.
-    intros T Hr st1 st2 j. unfold structure_from_dict. cbn [snd sreg_of].
-    rewrite (structure_equiv (reach ct T ++ sreg_of st1) (reach ct T ++ sreg_of st2)); [reflexivity|].
-    intros c k Hk. rewrite (reaches_all_hooked T (sreg_of st1) Hr c k Hk),
-                           (reaches_all_hooked T (sreg_of st2) Hr c k Hk). reflexivity.
+    intros T st1 st2 j. unfold structure_from_dict. cbn [snd sreg_of].
+    rewrite (structure_equiv b64dec dt_parse date_parse uuid_parse time_parse int_of_str float_of_str str_of_json ct
+               (Rof T) (Rof_closed T) (reach ct T ++ sreg_of st1) (reach ct T ++ sreg_of st2)); [reflexivity| |].
+    - intros c k Hc _. rewrite !Rof_hooked by exact Hc. reflexivity.
+    - intros d Hd. apply Rof_in. exact Hd.
   Qed.
 
-  (* the two entry points, any prior state: encode, then decode, gives the instance back *)
-  Theorem api_encode_decode_partial :
+  (* unstructure_to_dict on an instance that conforms to its class: independent of the prior state too *)
+  Theorem history_free_encode : ct_ok ct -> forall c v st1 st2,
+    inst_ok dt_parse date_parse uuid_parse time_parse ct (TData c) v ->
+    snd (unstructure_to_dict b64enc ct st1 v) = snd (unstructure_to_dict b64enc ct st2 v).
+  Proof.
+    intros Hct c v st1 st2 Hi.
+    assert (Hv : exists fs, v = VData c fs) by (inversion Hi; eexists; reflexivity).
+    destruct Hv as [fs ->]. unfold unstructure_to_dict. cbn [snd ureg_of].
+    assert (Hdyn : forall r, unstructure b64enc ct r (VData c fs) TAny = unstructure b64enc ct r (VData c fs) (TData c)).
+    { intro r. cbn [unstructure unstructure_node unstructure_nonopt]. rewrite N.eqb_refl. reflexivity. }
+    rewrite !Hdyn.
+    rewrite (unstructure_equiv b64enc dt_parse date_parse uuid_parse time_parse ct (Rof (TData c)) (Rof_closed (TData c)) Hct
+               (reach ct (TData c) ++ ureg_of st1) (reach ct (TData c) ++ ureg_of st2)); [reflexivity | | reflexivity | | exact Hi].
+    - intros c' k Hc _. rewrite !Rof_hooked by exact Hc. reflexivity.
+    - intros d Hd. apply Rof_in. exact Hd.
+  Qed.
+
+  (* encode, then decode, through the entry points, from ANY prior state *)
+  Theorem api_encode_decode_full :
     (forall b, b64dec (b64enc b) = Some b) -> ct_ok ct ->
-    forall c v st, reaches_all (TData c) = true ->
-      inst_ok dt_parse date_parse uuid_parse time_parse ct (TData c) v ->
+    forall c v st, inst_ok dt_parse date_parse uuid_parse time_parse ct (TData c) v ->
       exists j st', unstructure_to_dict b64enc ct st v = (st', Returned j) /\
         snd (structure_from_dict b64dec dt_parse date_parse uuid_parse time_parse int_of_str float_of_str str_of_json ct st' (TData c) j)
         = Returned v.
   Proof.
-    intros Hb Hct c v st Hr Hi.
+    intros Hb Hct c v st Hi.
     assert (Hv : exists fs, v = VData c fs) by (inversion Hi; eexists; reflexivity).
     destruct Hv as [fs ->].
     pose (st' := {| sreg_of := sreg_of st; ureg_of := reach ct (TData c) ++ ureg_of st |}).
     destruct (encode_decode_core b64dec b64enc dt_parse date_parse uuid_parse time_parse int_of_str float_of_str str_of_json ct
-                (reach ct (TData c) ++ sreg_of st') (ureg_of st') Hb Hct
-                (reaches_all_hooked _ _ Hr) (reaches_all_hooked _ _ Hr) (VData c fs) (TData c) eq_refl Hi)
+                (reach ct (TData c) ++ sreg_of st') (ureg_of st') Hb Hct (Rof (TData c)) (Rof_closed (TData c))
+                (fun c' k Hc _ => Rof_hooked (TData c) _ c' Hc) (fun c' k Hc _ => Rof_hooked (TData c) _ c' Hc)
+                (VData c fs) (TData c) eq_refl (Rof_in (TData c)) Hi)
       as [j [Hu [Hs _]]].
     exists j, st'. split.
     - unfold unstructure_to_dict. fold st'.
@@ -932,4 +1067,19 @@ Section History.
       rewrite Hdyn, Hu. reflexivity.
     - unfold structure_from_dict. cbn [snd sreg_of]. rewrite Hs. reflexivity.
   Qed.
-End History.
+End Api.
+
+(* ---------- F16b: unstructure_to_dict on a container root is history-dependent ---------- *)
+Definition k_F16b : cls :=
+  {| c_id := 0; c_fields := [ {| f_name := [120;95;121]; f_ty := TInt; f_default := None |} ];     (* x_y *)
+     c_load := Some [([120;89], [120;95;121])]; c_dump := Some [([120;95;121], [120;89])] |}.   (* xY <-> x_y *)
+Definition inst_F16b : value := VData 0 [([120;95;121], VInt 5)].
+Definition root_F16b : value := VDict [([107], inst_F16b)].                                      (* {"k": inst} *)
+
+Lemma refuted_F16b : forall b64enc,
+  let st2 := fst (unstructure_to_dict b64enc [k_F16b] st0 inst_F16b) in
+  snd (unstructure_to_dict b64enc [k_F16b] st0 root_F16b)
+    = Returned (JObj [([107], JObj [([120;95;121], JInt 5)])]) /\
+  snd (unstructure_to_dict b64enc [k_F16b] st2 root_F16b)
+    = Returned (JObj [([107], JObj [([120;89], JInt 5)])]).
+Proof. intro b64enc. split; vm_compute; reflexivity. Qed.
